@@ -169,9 +169,107 @@ def rebuild_rules(ctx, RID="R06.5", only_types=False):
     ctx.floor(RID, "rebuild sites", n, 12 if only_types else 18)
 
 
+def changed_flag_rules(ctx, RID="R06.6"):
+    """The substitute/resolve functions return the rebuilt object iff *any* operand changed, and `this` otherwise.  The
+    flag that accumulates "something changed" must therefore be monotone: once set, no later assignment may clear it."""
+    db = ctx.db
+    ctx.rule(RID, "in substitute_decl()/resolve_type()/copy_substitute_decl(), a bool local that accumulates `something changed` is only ever set (`= true`, `x = x || e`, `x |= e`) once it may already be set; a plain `x = e` must not be reachable from an earlier assignment")
+    n_flags = n_asg = 0
+    for f in db.functions:
+        short = f.name.split("::")[-1]
+        if short not in ("substitute_decl", "resolve_type", "copy_substitute_decl", "instantiate") or "/cppparser/" not in f.file:
+            continue
+        flags = {}
+        for st in f.walk():
+            if st.get("k") == "decls":
+                for d in st["d"]:
+                    if d.get("t") == "bool":
+                        flags[d["d"]] = d
+        if not flags:
+            continue
+        cfg = f.cfg
+        asg = {}  # decl -> [(node, kind)]
+        for x in f.walk():
+            if x.get("k") != "bin" or x.get("op") not in ("=", "|=", "&="):
+                continue
+            tgt = local_ref(x.get("x"))
+            if tgt is None or tgt.get("d") not in flags:
+                continue
+            d = tgt["d"]
+            rhs = strip_casts(peel(x.get("y")))
+            kind = "plain"
+            if x["op"] == "|=":
+                kind = "or"
+            elif x["op"] == "&=":
+                kind = "and"
+            elif rhs is not None and rhs.get("k") == "bool":
+                kind = "true" if rhs.get("v") else "false"
+            elif rhs is not None and rhs.get("k") == "bin" and rhs.get("op") in ("||", "&&"):
+                # x = x || e   /  x = e || x
+                def chain(n, op):
+                    n = strip_casts(peel(n))
+                    if n is not None and n.get("k") == "bin" and n.get("op") == op:
+                        return chain(n["x"], op) + chain(n["y"], op)
+                    return [n]
+                if any((local_ref(o) or {}).get("d") == d for o in chain(rhs, rhs["op"])):
+                    kind = "or" if rhs["op"] == "||" else "and"
+            asg.setdefault(d, []).append((x, kind))
+        for d, lst in asg.items():
+            kinds = {k for _, k in lst}
+            # polarity: a positive accumulator starts false and is set true; a negative one (`unchanged`) the reverse
+            if "true" in kinds or "or" in kinds:
+                mono, bad_kinds = ("true", "or"), ("plain", "false", "and")
+            elif "false" in kinds or "and" in kinds:
+                mono, bad_kinds = ("false", "and"), ("plain", "true", "or")
+            else:
+                continue
+            if len(lst) < 2 and not any(k in bad_kinds for _, k in lst):
+                pass
+            n_flags += 1
+            lst.sort(key=lambda t: (f.line_of(t[0]), t[0]["i"]))
+            for ordn, (x, k) in enumerate(lst):
+                n_asg += 1
+                if k in mono:
+                    ctx.ob(RID, "%s|%s|assignment#%d" % (f.name, flags[d]["n"], ordn), True, f.loc(x), "monotone: %s" % show(x)[:70])
+                    continue
+                # may an earlier assignment already have set the flag?
+                lx = cfg.locate(x)
+                earlier = None
+                for y, ky in lst:
+                    if y is x and not _self_reachable(cfg, lx):
+                        continue
+                    ly = cfg.locate(y)
+                    if ly is None or lx is None:
+                        continue
+                    if y is x or _after(cfg, ly, lx):
+                        earlier = y
+                        break
+                ctx.ob(RID, "%s|%s|assignment#%d" % (f.name, flags[d]["n"], ordn), earlier is None, f.loc(x),
+                       "`%s` %s" % (show(x)[:70], "is the first assignment on every path" if earlier is None else
+                                    "can discard the change recorded at line %d" % f.line_of(earlier)))
+    ctx.floor(RID, "change-accumulator flags", n_flags, 6)
+    ctx.floor(RID, "assignments to change accumulators", n_asg, 25)
+
+
+def _after(cfg, la, lb):
+    """Can control reach location lb after executing location la?"""
+    if la[0] == lb[0] and lb[1] > la[1]:
+        return True
+    seen = set()
+    for s in cfg.blocks[la[0]].succs:
+        if s is not None:
+            seen |= cfg.reachable(s)
+    return lb[0] in seen
+
+
+def _self_reachable(cfg, l):
+    return _after(cfg, l, (l[0], -1)) if l is not None else False
+
+
 def run(ctx):
     db = ctx.db
     rebuild_rules(ctx, "R06.5")
+    changed_flag_rules(ctx, "R06.6")
     ctx.rule("R06.1", "every field a (non-copy) constructor initialises from a parameter is read by the class's structural is_less() and is_equal()")
     ctx.rule("R06.2", "for every CPPExpression variant, every union member its constructor/factory fills from a parameter is read in that variant's arm of is_less() and is_equal()")
 
